@@ -127,7 +127,11 @@ func (b *SidxBox) Type() string {
 // Size - return calculated size
 func (b *SidxBox) Size() uint64 {
 	// Add up all fields depending on version
-	return uint64(boxHeaderSize + 4 + 20 + 8*int(b.Version) + len(b.SidxRefs)*12)
+	size := uint64(boxHeaderSize + 4 + 20 + len(b.SidxRefs)*12)
+	if b.Version != 0 { // 64-bit earliest_presentation_time and first_offset, as in the decoder and encoder
+		size += 8
+	}
+	return size
 }
 
 // Encode - write box to w
